@@ -117,6 +117,11 @@ def block(g, depth, kinds):
         return [m + " {nosuchrole%s}`x`" % m], [(m, 0, "paragraph", None), (m, 0, "warning:role_unknown", None)]
     if kind == "directive":
         return directive(g, depth, kinds)
+    if kind == "substitution":
+        # a block substitution: what it renders belongs to the line of the '{{ key }}' construct
+        m = g.marker()
+        g.subs = {"subval": m + " from the substitution"}
+        return ["{{ subval }}"], [(m, 0, "paragraph", "substitution")]
     if kind == "code-unknown-lang":
         m = g.marker()
         return ["```nosuchlexer", m, "```"], [(m, 0, "literal_block", None)]
@@ -244,7 +249,9 @@ def check_lines(eng, ctx, marks, S, source="src.md"):
         label = "line"
         if extra == "merged-first-line" or extra == "in-merged":
             label = "line:merged-first-line"
-        eng.require(line == S + 1 + rel, label, "%s %s: line %s expected S+1+%d" % (kind, marker, _fmt(eng, line, S), rel), stop=(label == "line"))
+        if extra == "substitution":
+            label = "line:substitution"
+        eng.require(line == S + 1 + rel, label, "%s %s: line %s expected S+1+%d" % (kind, marker, _fmt(eng, line, S), rel), stop=(label == "line"))  # listed findings (merged first line, substitution) do not end the path
         src = n.get("source") if kind.startswith("warning") else n.source
         eng.require(src == source, "source", "%s %s: source %r" % (kind, marker, src))
 
@@ -363,10 +370,11 @@ def make_toplevel(eng, kinds):
     setup()
     g = Gen(eng)
     state = {}
-    eng.witness_fn = lambda m: {"text": state.get("text"), "marks": state.get("marks"), "S": 0, "toplevel": True, "eof": state.get("eof", "\n")}
+    eng.witness_fn = lambda m: {"text": state.get("text"), "marks": state.get("marks"), "S": 0, "toplevel": True, "eof": state.get("eof", "\n"), "subs": state.get("subs", {})}
 
     def body():
         g.reset()
+        g.subs = {}
         g.inner = ["para", "list", "unknown-role"]
         bl, bm = blocks(g, 1, 1, kinds)
         lines = ["M0 intro", ""] + bl
@@ -377,7 +385,8 @@ def make_toplevel(eng, kinds):
             lines, eof = lines[:-1], ""
         text = "\n".join(lines)
         state["text"], state["marks"], state["eof"] = text, marks, eof
-        ctx = CR.new_context(config={"enable_extensions": ["colon_fence"]})
+        ctx = CR.new_context(config={"enable_extensions": ["colon_fence", "substitution"], "substitutions": dict(getattr(g, "subs", None) or {})})
+        state["subs"] = dict(getattr(g, "subs", None) or {})
         toks = ctx.md.parse(text + eof, ctx.renderer.md_env)
         try:
             ctx.renderer._render_tokens(toks)
@@ -497,7 +506,7 @@ def families(tier, seed):
     F.append(Family("sphinx-include", make_sphinx_include, "real Sphinx builds: an unknown role inside an included file (same / sub directory) and unknown roles before / after the include in the including file: "
                     "the logged location names the file the warning belongs to (and the right line in the including file)", nontrivial="directive", max_forks=1000))
     F.append(Family("include", make_include, "include of a file with 1-2 blocks whose head is skipped by :start-line: n, :start-after: marker or a negative :start-line:, at symbolic offset S", nontrivial="directive", max_forks=300000))
-    F.append(Family("toplevel", make_toplevel, "top-level render of 2 blocks (depth <= 1) tokenised by the real markdown-it", args=dict(kinds=["para", "list", "heading", "directive", "unknown-role", "dup-refdef"] if q else ALL + ["dup-refdef"]),
+    F.append(Family("toplevel", make_toplevel, "top-level render of 2 blocks (depth <= 1) tokenised by the real markdown-it", args=dict(kinds=["para", "list", "heading", "directive", "unknown-role", "dup-refdef", "substitution"] if q else ALL + ["dup-refdef", "substitution"]),
                     nontrivial="directive", max_forks=300000))
     return F
 
@@ -557,7 +566,7 @@ def replay(label, witness):
             return problems[0] if problems else None
         return None
     text, marks = witness["text"], witness["marks"]
-    ctx = CR.new_context(real=True, config={"enable_extensions": ["colon_fence"]})
+    ctx = CR.new_context(real=True, config={"enable_extensions": ["colon_fence", "substitution"], "substitutions": witness.get("subs") or {}})
     try:
         if witness.get("toplevel"):
             ctx.renderer._render_tokens(ctx.md.parse(text + witness.get("eof", "\n"), ctx.renderer.md_env))
@@ -579,9 +588,9 @@ def replay(label, witness):
         n = cands[idx]
         line = n.get("line") if kind.startswith("warning") else n.line
         if line != S + 1 + rel:
-            sig = "C04/merged-first-line" if extra in ("merged-first-line", "in-merged") else "C04/line:%s" % kind.split(":")[0]
+            sig = "C04/merged-first-line" if extra in ("merged-first-line", "in-merged") else "C04/substitution-off-by-one" if (extra == "substitution" and line == S + 2 + rel) else "C04/line:%s" % kind.split(":")[0]
             res = (sig, "text %r rendered at offset %d: %s %s starts on line %d but is reported at line %r" % (text, S, kind, marker, S + 1 + rel, line))
-            if sig != "C04/merged-first-line":
+            if sig not in ("C04/merged-first-line", "C04/substitution-off-by-one"):
                 return res
             worst = worst or res
             continue
